@@ -587,9 +587,20 @@ Fixpoint ascii_list_eqb (a b : list ascii) : bool :=
   | x :: a', y :: b' => Ascii.eqb x y && ascii_list_eqb a' b'
   | _, _ => false
   end.
+(* the implementation's tokens, as written by the harness: texts each followed by "|" *)
+Fixpoint split_bar (s : list ascii) (acc : list ascii) : list (list ascii) :=
+  match s with
+  | [] => []
+  | c :: r => if Ascii.eqb c "|"%char then rev acc :: split_bar r [] else split_bar r (c :: acc)
+  end.
+Definition pytokens (s : list ascii) : list ltok :=
+  map (fun x => match x with
+                | [c] => if is_cmd c then LCmd c else LNum x
+                | _ => LNum x end) (split_bar s []).
 Definition casety : Type := (list int * list int * list int)%type.
 Definition bit (b : bool) (v : nat) : nat := if b then 0 else v.
-(* 1: tokenizer model <> _tokenize_path      2: the string does not lex to the intended tokens
+(* 1 / 2048 / 4096 / 8192: tokenizer model (dot_ok, arc_ok) = ff (the pinned one) / tf / ft / tt <> _tokenize_path
+   2: the string does not lex (by the implementation) to the intended tokens
    4/8/16/32: impl_parse variant (none_ok,coinc_ok) = ff/tf/ft/tt disagrees with parse_path
    64: the reference interpreter disagrees with parse_path (the property)
    128/256/512 (informative): S/T directly after Z; arc ending on the current point; not grammatical
@@ -598,11 +609,17 @@ Definition ok (c : casety) : nat :=
   let '(d, joined, body) := c in
   match rd_case body with
   | Some ((ex, pos0, o), []) =>
-  let lt := tokenize (unpack d) in
-  let toks := flat_map tok_of_ltok lt in
+  let ds := unpack d in
+  let pj := unpack joined in
+  (* the parser models are run on the implementation's own token list, so that the
+     parser tie does not depend on which FLOAT_RE the tokenizer has *)
+  let toks := flat_map tok_of_ltok (pytokens pj) in
   let expected := match ex with inl prog => flatten N prog | inr t => t end in
   let main :=
-    bit (ascii_list_eqb (join lt) (unpack joined)) 1 +
+    bit (ascii_list_eqb (join (tokenize ds)) pj) 1 +
+    bit (ascii_list_eqb (join (tokenize_v true false ds)) pj) 2048 +
+    bit (ascii_list_eqb (join (tokenize_v false true ds)) pj) 4096 +
+    bit (ascii_list_eqb (join (tokenize_v true true ds)) pj) 8192 +
     bit (toks_eqb N toks expected) 2 +
     bit (res_match (impl_parse N false false toks pos0) o) 4 +
     bit (res_match (impl_parse N true false toks pos0) o) 8 +
@@ -841,10 +858,30 @@ def run(rep, tier, seed, replay=None):
             return d
 
         # --- tie 1: tokenizer
-        lex_bad = [i for i, k in codes.items() if k & 1]
-        for i in lex_bad[:3]:
-            rep.violation('Model/Lexer.v tokenize differs from Path._tokenize_path on %r' % cases[i].d,
-                          rp(cases[i], kind='lexer-tie', pytoks=cases[i].pytoks), key='lexer-tie')
+        LEXV = {1: 'dot_ok=false,arc_ok=false (pinned: FLOAT_RE requires a digit after the point; no arc-flag pass)',
+                2048: 'dot_ok=true,arc_ok=false (FLOAT_RE_DOT; no arc-flag pass)',
+                4096: 'dot_ok=false,arc_ok=true (pinned FLOAT_RE; arc flags split off)',
+                8192: 'dot_ok=true,arc_ok=true (FLOAT_RE_DOT; arc flags split off)'}
+        lex_dis = {b: [i for i, k in codes.items() if k & b] for b in LEXV}
+        lex_ok = [b for b in LEXV if not lex_dis[b]]
+        rep.cov['tokenizer_variants'] = {LEXV[b]: ('agrees on all %d strings' % len(cases)) if not lex_dis[b]
+                                         else 'disagrees on %d strings, e.g. %r' % (len(lex_dis[b]), cases[lex_dis[b][0]].d)
+                                         for b in LEXV}
+        lex_variant = lex_ok[0] if lex_ok else None
+        if lex_variant is None:
+            best = min(LEXV, key=lambda b: len(lex_dis[b]))
+            for i in sorted(lex_dis[best], key=lambda i: len(cases[i].d))[:2]:
+                rep.violation('no variant of the tokenizer model agrees with Path._tokenize_path: %s differs on %r'
+                              % (LEXV[best], cases[i].d),
+                              rp(cases[i], kind='lexer-tie', pytoks=cases[i].pytoks), key='lexer-tie')
+        else:
+            rep.cov['tokenizer_is_variant'] = LEXV[lex_variant] + (
+                '' if len(lex_ok) == 1 else ' (not discriminated from %s on this run)' % [LEXV[b][:26] for b in lex_ok[1:]])
+            rep.cov['applicable_lexer_theorem'] = {
+                1: 'C02_lex_render / C02_spellings (numerals of the shape of the pinned FLOAT_RE; 1.e3 and adjacent arc flags refuted)',
+                2048: 'C02_lex_render_dot / C02_spellings_dot (full SVG number grammar incl. trailing dot; adjacent arc flags refuted)',
+                4096: 'C02_tokenize_v_render (pinned FLOAT_RE shapes, flags properly written) + C02_adjacent_arc_flags_repaired (witnesses)',
+                8192: 'C02_tokenize_v_render_dot (full SVG number grammar, flags properly written) + C02_adjacent_arc_flags_repaired (witnesses; compact flags checked by the harness)'}[lex_variant]
         # --- tie 2: which variant of impl_parse is the code?
         disagree = {b: [i for i, k in codes.items() if k & b] for b in VARIANTS}
         consistent = [b for b in VARIANTS if not disagree[b]]
@@ -908,8 +945,9 @@ def run(rep, tier, seed, replay=None):
             ls = tuple(l for l, _ in c.prog)
             if len(set(ls)) >= 2:
                 nontriv.add((ls, c.d))
-        tied = sum(1 for i in range(len(cases)) if code_variant and not (codes.get(i, 0) & (1 | code_variant)))
-        rep.cov['evaluations'] = len(cases) * 6 + len(gram)
+        tied = sum(1 for i in range(len(cases)) if code_variant and lex_variant
+                   and not (codes.get(i, 0) & (lex_variant | code_variant)))
+        rep.cov['evaluations'] = len(cases) * 9 + len(gram)
         rep.cov['traces_validated_against_impl'] = tied
         rep.cov['distinct_nontrivial'] = len(nontriv)
         rep.cov['rule'] = ("strings parsed by svgpathtools.parse_path and, inside Coq, by tokenize + the four variants of impl_parse "
